@@ -2,18 +2,21 @@
    Statements only; proofs are in Proofs/ConfigProofs.v; the tables (built-in ini, option ->
    ini key) are Gen/GenIni.v, regenerated from the pika source tree on every run. *)
 From Coq Require Import String Ascii List NArith Bool Permutation.
-From Pika Require Import Gen.GenIni Model.Config Proofs.ConfigProofs.
+From Pika Require Import Gen.GenIni Model.Config Proofs.ConfigExpandProofs Proofs.ConfigProofs.
 Import ListNotations.
 Open Scope string_scope.
 
 (* For EVERY option -> ini-key pair of the regenerated table and EVERY combination of present /
    absent sources: the command-line option (which includes a PIKA_COMMANDLINE_OPTIONS entry, as
    that is prepended to the command line) decides; else a --pika:ini definition; else the
-   environment variable named by the built-in placeholder; else the built-in default. *)
+   environment variable named by the built-in placeholder; else the built-in default.
+   [env_plain env n d]: the value of the variable (the default if it is unset) contains no `${` / `$[`
+   (noph) and fewer than 90 dollar signs - otherwise the ini layer expands the VALUE again
+   (C16_builtin_placeholders states what is stored in general, C16_expand_value_rescanned has witnesses). *)
 Theorem C16_cmdline_over_env_over_default :
   forall opt key, In (opt, key) opt_key ->
   forall raw n d, assoc key builtin_ini = Some raw -> placeholder raw = Some (n, d) ->
-  forall env p cfgmap,
+  forall env p cfgmap, env_plain env n d ->
     resolve env p cfgmap opt key =
     match value_of opt p with
     | Some v => v
@@ -31,10 +34,63 @@ Theorem C16_table_covered : forallb table_entry_ok opt_key = true.
 Proof. exact table_covered. Qed.
 Print Assumptions C16_table_covered.
 
-(* every placeholder line of the built-in ini expands to the variable if set, else the default *)
+(* every placeholder line `${NAME:default}` of the built-in ini, for the FAITHFUL expansion (transcription of
+   section::expand_only / expand / expand_brace / expand_bracket / find_next of ini.cpp), for every environment:
+   (1) add_entry stores the value of the variable if set, else the default, AFTER SCANNING THE TEXT BEHIND ITS FIRST
+       CHARACTER AGAIN (rescan_tail: p = value.find_first_of('$', p + 1));
+   (2) when that value contains no placeholder (noexp = no `${` / `$[`, fewer than 90 dollar signs) it is stored
+       unchanged and every later read (get_entry -> expand) returns it unchanged. *)
 Theorem C16_builtin_placeholders : Forall placeholder_ok builtin_ini.
 Proof. exact builtin_placeholders. Qed.
 Print Assumptions C16_builtin_placeholders.
+
+(* ---- the expansion function itself (Model/Config.v: xp_all = section::expand, xp_only = expand_only,
+   read_x = add_entry then get_entry) *)
+
+(* identity / fixpoints: a text without placeholder start (no '$' followed by '{' or '[') is returned unchanged
+   by expand, expand_only and by the store/read pair, for every environment and configuration, as soon as the
+   fuel exceeds the number of dollar signs; in particular a text without '$' (C16_app_args_unchanged uses that) *)
+Theorem C16_expand_fixpoint :
+  forall env look fuel k s, noph s = true -> dollars s < fuel ->
+    xp_all env look fuel s = XOk s /\ xp_only env look fuel k s = XOk s.
+Proof. intros. split; [now apply xp_all_noph|now apply xp_only_noph]. Qed.
+Print Assumptions C16_expand_fixpoint.
+
+Theorem C16_expand_no_dollar_identity :
+  forall env look k s, contains c_dollar s = false -> read_x env look k s = XOk s.
+Proof. exact read_x_no_dollar. Qed.
+Print Assumptions C16_expand_no_dollar_identity.
+
+(* ... but the result of ONE expansion is in general NOT a fixpoint (so "a fully expanded entry contains no
+   placeholder of a defined name" is false for the code that exists): the first character of a substituted
+   value is never scanned again, an escaped closing brace is un-escaped without being used, a '$' in front of
+   a placeholder can capture what the placeholder leaves behind.  Each witness: the result of expand still
+   contains a complete placeholder of a defined variable, and expanding again changes it.  (The second and
+   third were run on the real code through two passes: `a${HOME\}b` arrives as a/hb, `$${X}{HOME}` as /h.) *)
+Theorem C16_expand_fixpoint_refuted :
+  (let env := [("Y", "${Z}"); ("Z", "zz")] in
+   xp_all env no_entries 10 "${Y}" = XOk "${Z}" /\ xp_all env no_entries 10 "${Z}" = XOk "zz") /\
+  (let env := [("HOME", "/h")] in
+   xp_all env no_entries 10 "a${HOME\}b" = XOk "a${HOME}b" /\ xp_all env no_entries 10 "a${HOME}b" = XOk "a/hb") /\
+  (let env := [("X", ""); ("HOME", "/h")] in
+   xp_all env no_entries 10 "$${X}{HOME}" = XOk "${HOME}" /\ xp_all env no_entries 10 "${HOME}" = XOk "/h").
+Proof. repeat split; vm_compute; reflexivity. Qed.
+Print Assumptions C16_expand_fixpoint_refuted.
+
+(* fuel: the transcription counts nesting depth.  A result other than "out of fuel" does not depend on the
+   amount of fuel: it is the result for every larger amount (so the bound of the executable model, xfuel = 100,
+   suffices for every input whose expansion ends within it, and C16_expand_fixpoint gives the explicit bound
+   (number of '$') + 1 for texts without placeholder) *)
+Theorem C16_expand_fuel_monotone :
+  forall env look k f g s r, f <= g -> r <> XFuel ->
+    (xp_all env look f s = r -> xp_all env look g s = r) /\
+    (xp_only env look f k s = r -> xp_only env look g k s = r).
+Proof.
+  intros env look k f g s r Hle Hn. split; intros E.
+  - exact (xp_all_fuel_monotone env look f g s r E Hn Hle).
+  - exact (xp_only_fuel_monotone env look k f g s r E Hn Hle).
+Qed.
+Print Assumptions C16_expand_fuel_monotone.
 
 (* position of --pika:ini: below the command-line option, above environment/default; among
    several definitions of one key the FIRST decides (manage_config) - so a definition
@@ -94,6 +150,7 @@ Theorem C16_threads_keywords_precedence :
   forall env p cfg m ok f a c,
     handle env p cfg m ok f a = Started c ->
     assoc "pika.force_min_os_threads" cfg = None ->
+    env_plain env "PIKA_THREADS" "cores" ->
     exists it ic, eff_counts env p cfg m = Some (it, ic) /\
       kw_count it ic (threads_text env p cfg) = Some (c_threads c).
 Proof. exact threads_keywords_precedence_sources. Qed.
@@ -115,8 +172,7 @@ Theorem C16_unknown_pika_option_rejected :
 Proof.
   split; [exact unknown_token_unregistered|split; [exact parse_unreg_mono|]].
   intros env p cfg m ok f ex arg0 pco args H.
-  exact (argv_rejected_not_started env p cfg m ok f (fun _ => app_argv ex arg0 pco args p) RLateUnknown
-           (unregistered_rejected ex arg0 pco args p H)).
+  exact (unregistered_not_started env p cfg m ok f ex arg0 pco args H).
 Qed.
 Print Assumptions C16_unknown_pika_option_rejected.
 
@@ -198,6 +254,37 @@ Proof.
 Qed.
 Print Assumptions C16_app_args_dollar_refuted.
 
+(* substituted text IS scanned again behind its first character (the mismatch of the former model):
+   X='$[pika.os_threads]' ./prog '${X}' - add_entry stores $[pika.os_threads], get_entry expands it *)
+Theorem C16_expand_value_rescanned :
+  (exists c, run [("X", "$[pika.os_threads]")] M16 "./prog" ["${X}"; "--pika:threads=3"] = Started c /\ c_argv c = ["3"]) /\
+  (exists c, run [("X", "a$[pika.os_threads]")] M16 "./prog" ["${X}"; "--pika:threads=3"] = Started c /\ c_argv c = ["a3"]) /\
+  (exists c, run [("X", ""); ("Y", "${Z}"); ("Z", "${W}"); ("W", "w")] M16 "./prog" ["${X}${Y}"] = Started c /\ c_argv c = ["${W}"]) /\
+  (exists c, run [("X", "a"); ("Y", "${Z}"); ("Z", "${W}"); ("W", "w")] M16 "./prog" ["${X}${Y}"] = Started c /\ c_argv c = ["aw"]) /\
+  (exists c, run [("PIKA_THREADS", "${T}"); ("T", "3")] M16 "./prog" [] = Started c /\ c_threads c = 3%N).
+Proof. repeat split; eexists; (split; vm_compute; reflexivity). Qed.
+Print Assumptions C16_expand_value_rescanned.
+
+(* the looping inputs: a value that refers to itself BEHIND its first character (A='x${A}') makes expand and
+   expand_only run out of EVERY amount of fuel (the real loop never ends: the string grows by one character per
+   round; reproduced: A='x${A}' ./prog '${A}' and PIKA_TRACE_DEPTH='x${PIKA_TRACE_DEPTH}' ./prog hang, finding
+   C16:expand:self_reference_hang); the exact self reference A='${A}' stops, because the first character of the
+   substituted text is skipped.  A colon directly behind `${` / `$[` terminates the process (std::out_of_range from
+   find_next; finding C16:expand:colon_out_of_range). *)
+Theorem C16_expand_self_reference_loops :
+  (forall look fuel, xp_all env_loop look fuel "${A}" = XFuel) /\
+  (forall look k fuel, xp_only env_loop look fuel k "${A}" = XFuel) /\
+  (forall look f, xp_all [("A", "${A}")] look (S (S f)) "${A}" = XOk "${A}") /\
+  run env_loop M16 "./prog" ["${A}"] = Rejected RExpandLoop /\
+  run [("PIKA_TRACE_DEPTH", "x${PIKA_TRACE_DEPTH}")] M16 "./prog" [] = Rejected RExpandLoop /\
+  run [] M16 "./prog" ["${:x}"] = Rejected RExpandCrash.
+Proof.
+  split; [exact self_reference_loops|]. split; [exact self_reference_loops_only|].
+  split; [exact exact_self_reference_stops|]. repeat split; vm_compute; reflexivity.
+Qed.
+Print Assumptions C16_expand_self_reference_loops.
+
+
 (* app_args_unchanged, END TO END.  The guard is the boolean predicate
      arg_safe a = nonempty a && all_safe a,   all_safe a = every character c of a satisfies
      safe_char c = negb (c is double quote || c is single quote || c is backslash || c is dollar)
@@ -208,9 +295,9 @@ Print Assumptions C16_app_args_dollar_refuted.
    the classes of the finding C16:app_args:quote_backslash_or_empty (C16_app_args_refuted has a witness for
    each).  The dollar sign is excluded in addition because the rebuilt line is read back through
    get_config_entry, which expands ${NAME} and $[key] (./prog '${HOME}' arrives as /root); the model applies
-   that expansion too (app_argv's [ex] = expand_entry; C16_app_args_dollar_refuted above), so `$` must stay in
+   that expansion too (app_argv's [ex] = read_x; C16_app_args_dollar_refuted above), so `$` must stay in
    the guard (finding C16:app_args:dollar_expanded): without `$` in the line the expansion is the identity
-   (expand_entry_nodl).
+   (read_x_nodl / C16_expand_no_dollar_identity).
    The guard is imposed on argv[0] and on EVERY argument (the prepended tokens of PIKA_COMMANDLINE_OPTIONS
    included), because option values travel through the same re-quoting and an unbalanced quote in one of them
    swallows the arguments that follow.
